@@ -117,10 +117,17 @@ def c04_job(chk, rng, i):
     fl = flavour4(i, tb)
     # %array: the token is copied into yytext[], NUL bytes included
     array = (i % 5 in (1, 3))
-    cfg = {"flavour": fl, "flexargs": lib.tables_args(tb, p["bits"]),
+    fargs = lib.tables_args(tb, p["bits"])
+    feats = []
+    if "e" in tb and ("f" in tb or "F" in tb) and p["bits"] == 8 and (i // 12) % 2 == 0:
+        # full tables with equivalence classes: the manual says these still default to an
+        # 8-bit scanner, so -8 is left to flex
+        fargs = tuple(a for a in fargs if a != "-8")
+        feats.append("full_ecs_default_8bit")
+    cfg = {"flavour": fl, "flexargs": fargs,
            "opts": {"interactive": inter, "array": array}}
-    feats = ["tables:" + (tb or "default"), "mode:" + str(inter), "bits:%d" % p["bits"],
-             "array" if array else "pointer"]
+    feats += ["tables:" + (tb or "default"), "mode:" + str(inter), "bits:%d" % p["bits"],
+              "array" if array else "pointer"]
     return {"case": case, "configs": [cfg], "inputs": inputs, "skip_if": dangerous,
             "features": feats, "expect_build": std_refusals(tb)}
 
@@ -704,7 +711,7 @@ def c11_job(chk, rng, i):
         cyc = [[("x", ("greflush", 0))], [("x", ("gswitch", 0))], [("x", ("greflush", 1))],
                [("x", ("gswitch", 1))]]
         case["driver"]["after"] = (cyc * 3) + case["driver"]["after"]
-    case["opts"]["yylineno"] = (i % 3 == 0)
+    case["opts"]["yylineno"] = ((i // 3) % 2 == 0)     # (independent of the flavour rotation)
     ctx = gen.ctx_of(case)
     inputs = []
     for n in range(8):
